@@ -26,6 +26,10 @@ class Resource:
         self.rid = rid
         self.raises = raises
 
+    def __len__(self):
+        # (a buffer, a queue, a pool: every other resource is one that happens to be empty - which does not make it nothing)
+        return self.rid % 2
+
     def close(self):
         self.lab.log.append({"e": "ResClose", "r": self.rid})
         if self.raises == "untrack":
